@@ -617,6 +617,12 @@ func runSchedCaseT(c *h.Ctx, r *h.Report, cs schedCase) (trace []int, disagreed 
 	rp := map[string]any{"family": "sched", "case": cs}
 	for _, p := range sr.panics {
 		r.Violate(h.Violation{Key: "C14:panic:" + p, What: "a schedule of transport/subscriber operations panics: " + p, Replay: rp})
+		if strings.Contains(p, "close of closed channel") {
+			// the subscriber's channel is closed twice (Disconnect and the overflow path, or two Disconnects): when the
+			// side that panics is the handler's shutdown, RemoveSubscriber and SubscriberDisconnected never run — the
+			// connected-subscribers gauge stays one too high for ever (C20), the subscriber stays listed
+			r.Violate(h.Violation{Key: "C20:shutdown-aborted-by-a-double-close", What: "the subscriber channel is closed twice: " + p + " (a shutdown aborted by this panic never decrements the gauge)", Replay: rp})
+		}
 	}
 	if len(sr.panics) > 0 {
 		for _, v := range sr.extra {
